@@ -14,40 +14,25 @@ Definition mT := mkMdl 4 1 2 [116]%N [84]%N None.        (* same dataset, DIFFER
 Definition mC := mkMdl 1 1 1 [99]%N [67]%N None.         (* same key as mP under another name *)
 Definition w1 : list witem := [WInit; WStore mP].
 
-(* C16-INDEX-CRASH.  Crash right after the index file .datasets/.hash/<h>/data1.csv was created
-   (operation 23 = the csv write did not happen): the dataset store is inconsistent, mI's key has no
-   PENDING marker, and yet storing mI — a model sharing that dataset — raises FileNotFoundError. *)
-Theorem shared_dataset_refuted :
-  exists (w : list witem) (k : nat) (m : mdl),
-    ds_ok (crash_w [] w k None) = false
-    /\ exists_ (crash_w [] w k None) (pending (m_key m)) = false
-    /\ item_res (WStore m) (crash_w [] w k None) = inl EFileNotFound.
-Proof. exists w1, 23, mI. vm_compute. auto. Qed.
+(* C16-INDEX-CRASH (fixed by b547698: index entry created last, empty index directory = not indexed).
+   Regression: at EVERY crash point of w1 (complete or torn after 0..3 units) storing mI — a model that
+   shares the dataset — succeeds; formerly FileNotFoundError / StopIteration at crash points 20..24. *)
+Definition is_ok (r : err + unit) : bool := match r with inr _ => true | inl _ => false end.
+Example index_crash_fixed :
+  forallb (fun k => is_ok (item_res (WDbStore mI) (crash_w [] w1 k None))
+                    && forallb (fun j => is_ok (item_res (WDbStore mI) (crash_w [] w1 k (Some j)))) [0;1;2;3])
+          (seq 0 38) = true.
+Proof. vm_compute. reflexivity. Qed.
 
-(* ... crash right after h_dir.mkdir (operation 20): StopIteration from next(h_dir.iterdir()) *)
-Theorem index_mkdir_refuted :
-  exists (w : list witem) (k : nat) (m : mdl),
-    ds_ok (crash_w [] w k None) = false
-    /\ exists_ (crash_w [] w k None) (pending (m_key m)) = false
-    /\ item_res (WStore m) (crash_w [] w k None) = inl EStopIteration.
-Proof. exists w1, 20, mI. vm_compute. auto. Qed.
+(* ... and the formerly silent variant: after the crash in the window, a model with another dataset, then
+   mI: mI is read back with ITS dataset (1), from its own data file. *)
+Example wrong_dataset_fixed :
+  results [WStore mD; WStore mI] (crash_w [] w1 22 None) = [inr tt; inr tt]
+  /\ snd (db_retrieve_model 2 (run [WStore mD; WStore mI] (crash_w [] w1 22 None))) = inr (2, 1, 3)%N
+  /\ snd (db_retrieve_model 3 (run [WStore mD; WStore mI] (crash_w [] w1 22 None))) = inr (3, 2, 2)%N.
+Proof. vm_compute. auto. Qed.
 
-(* ... and the silent variant: after the same crash, storing a model with ANOTHER dataset (mD) reuses
-   data1.csv; storing mI then succeeds, commits, is visible — and a reader gets dataset 2 for a model
-   that was stored with dataset 1. *)
-Theorem wrong_dataset_refuted :
-  exists (w : list witem) (k : nat) (w' : list witem) (m : mdl),
-    ds_ok (crash_w [] w k None) = false
-    /\ results w' (crash_w [] w k None) = [inr tt; inr tt]
-    /\ visible (run w' (crash_w [] w k None)) (m_key m) = true
-    /\ exists h n, snd (db_retrieve_model (m_key m) (run w' (crash_w [] w k None))) = inr (m_key m, h, n)
-                   /\ h <> m_dh m.
-Proof.
-  exists w1, 23, [WStore mD; WStore mI], mI. repeat split; try (vm_compute; reflexivity).
-  exists 2%N, 1%N. split; [vm_compute; reflexivity | discriminate].
-Qed.
-
-(* C16-PENDING-RETRANSACT.  mP is stored and committed (35 operations); the same model is stored again
+(* C16-PENDING-RETRANSACT.  mP is stored and committed (36 operations); the same model is stored again
    under another name; the process dies right after the PENDING marker of the second transaction was
    created (39 operations).  The key is committed, was visible, and no reader can open it any more. *)
 Theorem pending_retransact_refuted :
@@ -57,25 +42,17 @@ Theorem pending_retransact_refuted :
     /\ committed_in (firstn k (trace w [])) K = true
     /\ exists_ (crash_w [] w k None) (pending K) = true
     /\ visible (crash_w [] w k None) K = false.
-Proof. exists [WInit; WStore mP; WStore mC], 35, 39, 1%N. vm_compute. auto 6. Qed.
+Proof. exists [WInit; WStore mP; WStore mC], 36, 40, 1%N. vm_compute. auto 6. Qed.
 
-(* C16-ANNOT-NEWLINE.  "l1\nl2" is read back as "l1"; so is "x\ry" as "x". *)
-Theorem annotation_refuted_newline :
-  exists (file name a : str),
-    ends_nlb (translate file) = true /\ name_ok name = true /\ no_nl a = false
-    /\ annot_retrieve (annot_store file name a) name <> AFound a.
-Proof.
-  exists [], [109;49]%N, [108;49;10;108;50]%N. repeat split; try (vm_compute; reflexivity).
-  vm_compute. discriminate.
-Qed.
-Theorem annotation_refuted_cr :
-  exists (file name a : str),
-    ends_nlb (translate file) = true /\ name_ok name = true /\ no_nl a = false
-    /\ annot_retrieve (annot_store file name a) name = AFound [120]%N /\ a <> [120]%N.
-Proof.
-  exists [], [109;49]%N, [120;13;121]%N. repeat split; try (vm_compute; reflexivity). discriminate.
-Qed.
-(* a name with a space is not found again, and its text shows up under the first word *)
+(* C16-ANNOT-NEWLINE (fixed by 81deceb: backslash, LF and CR are escaped).  Regression: formerly
+   "l1\nl2" was read back as "l1" and "x\ry" as "x". *)
+Example annotation_newline_fixed :
+  annot_retrieve (annot_store [] [109;49]%N [108;49;10;108;50]%N) [109;49]%N = AFound [108;49;10;108;50]%N
+  /\ annot_retrieve (annot_store [] [109;49]%N [120;13;121;92;110]%N) [109;49]%N = AFound [120;13;121;92;110]%N
+  /\ annot_store [] [109;49]%N [108;49;10;108;50]%N = [109;49;32;108;49;92;110;108;50;10]%N.
+Proof. vm_compute. auto. Qed.
+
+(* C16-ANNOT-NAME-SPACE (open).  a name with a space is not found again, and its text shows up under the first word *)
 Theorem annotation_refuted_name :
   exists (file name a : str),
     name_ok name = false /\ no_nl a = true
@@ -83,28 +60,27 @@ Theorem annotation_refuted_name :
     /\ annot_retrieve (annot_store file name a) [109]%N = AFound [53;32;122]%N.
 Proof. exists [], [109;32;53]%N, [122]%N. vm_compute. auto. Qed.
 
-(* C16-ANNOT-TORN.  The annotations file is rewritten in place: when the rewrite for the second model is
-   interrupted (operation 51 torn), the annotation of the FIRST model, stored successfully before, is
-   gone (j = 0) or cut ("P" instead of "P d", j = 3). *)
-Theorem torn_annotation_refuted :
-  exists (w : list witem) (k : nat) (name : str),
-    results (firstn 2 w) [] = [inr tt; inr tt]
-    /\ option_map (fun c => annot_retrieve c name) (read_node (lookup (crash_w [] w k None) annot_path))
-       = Some (AFound [80;32;100]%N)
-    /\ option_map (fun c => annot_retrieve c name) (read_node (lookup (crash_w [] w k (Some 0)) annot_path))
-       = Some AMissing
-    /\ option_map (fun c => annot_retrieve c name) (read_node (lookup (crash_w [] w k (Some 4)) annot_path))
-       = Some (AFound [80]%N).
-Proof. exists [WInit; WStore mP; WStore mI], 51, sP. vm_compute. auto. Qed.
+(* C16-ANNOT-TORN (fixed by ffb4c75: annotations.tmp + os.replace).  Regression: the write for the second
+   model (operation 52, now on annotations.tmp) interrupted after 0, 4 or 9 units leaves the annotation of
+   the FIRST model intact; formerly it was lost or cut. *)
+Example torn_annotation_fixed :
+  nth_error (trace [WInit; WStore mP; WStore mI] []) 52
+  = Some (OpenW annot_tmp [112;32;80;32;100;10;105;32;73;10]%N)
+  /\ forallb (fun j => match option_map (fun c => annot_retrieve c sP)
+                                        (read_node (lookup (crash_w [] [WInit; WStore mP; WStore mI] 52 (Some j)) annot_path)) with
+                       | Some (AFound a) => str_eqb a [80;32;100]%N | _ => false end) [0;4;9] = true.
+Proof. vm_compute. auto. Qed.
 
-(* C16-LOG-NA.  The message "NA" is read back as NaN. *)
+(* C16-LOG-NA (fixed by 90b40e7: dtype=str, keep_default_na=False).  Regression: 'NA', '', '1', 'True' are
+   read back verbatim; formerly NaN / numbers / booleans. *)
 Definition cx : str := [99;116;120]%N. Definition dt : str := [100]%N. Definition inf : str := [105]%N.
-Theorem log_refuted_na :
-  exists (rows : list (str * str * str * str)),
-    log_guard (map (fun r => snd r) rows) = false
-    /\ read_log (log_file rows) = LCells [CStr [104;105]%N; CNaN].
-Proof. exists [(cx, dt, inf, [104;105]%N); (cx, dt, inf, [78;65]%N)]. vm_compute. auto. Qed.
-(* a NUL character cuts the message *)
+Example log_na_fixed :
+  read_log (log_file [(cx, dt, inf, [104;105]%N); (cx, dt, inf, [78;65]%N); (cx, dt, inf, []); (cx, dt, inf, [49]%N)])
+  = LCells [CStr [104;105]%N; CStr [78;65]%N; CStr []; CStr [49]%N]
+  /\ log_guard [[78;65]%N; []; [49]%N] = true.
+Proof. vm_compute. auto. Qed.
+
+(* C16-LOG-NUL (open).  a NUL character cuts the message *)
 Theorem log_refuted_nul :
   exists (rows : list (str * str * str * str)),
     log_guard (map (fun r => snd r) rows) = false
